@@ -123,6 +123,9 @@ class C10(GProp):
                 return [((1,), 'failure classified %s, reference stack matcher classifies %s' % (cls, ref[1]))]
             if ref[1].startswith('bracket:') and cls is None:
                 return [((1,), 'failure %s, reference stack matcher classifies %s' % (sexp.dump(v)[:100], ref[1]))]
+            if not ref[1].startswith('bracket:') and cls is not None and c['g'][0].startswith('bracket'):
+                # the reference found the pair and it is the INNER parser that fails (no sink): a bracket-matching error is wrong
+                return [((1,), 'failure classified %s although the reference matcher finds a pair (it is the inner parser that fails: %s)' % (cls, ref[1]))]
             return []
         if kind != 'ok':
             return [((1,), 'rejected (%s) although the reference matcher finds a pair: value %s' % (sexp.dump(v)[:120], sexp.dump(ref[1])))]
